@@ -6,6 +6,7 @@ import (
 	"encoding/json"
 	"errors"
 	"fmt"
+	"github.com/shirou/gopsutil/v4/process"
 	"io"
 	"io/fs"
 	"os"
@@ -481,6 +482,14 @@ var backendValues = []backendValue{
 	{"text:Access is denied", errors.New("Access is denied")}, {"text:not implemented", errors.New("not implemented")},
 	{"text:file exists", errors.New("mkdir x: file exists")}, {"text:i/o timeout", errors.New("read: i/o timeout")}, {"text:bad file descriptor", errors.New("close: bad file descriptor")},
 	{"plain", errors.New("something else")},
+	// the conditions of the process library that the process converter names
+	{"process.ErrorNotPermitted", process.ErrorNotPermitted}, {"process.ErrorProcessNotRunning", process.ErrorProcessNotRunning},
+}
+
+// mustClassify: conditions that a converter names explicitly must come out with a kind ("map each backend condition to one
+// stable kind"): being handed back unclassified is no kind.
+var mustClassify = map[string]map[string]bool{
+	"ConvertProcessError": {"process.ErrorNotPermitted": true, "process.ErrorProcessNotRunning": true, "exec.ErrNotFound": true, "exec.ErrDot": true, "exec.ErrWaitDelay": true},
 }
 
 func init() {
@@ -571,6 +580,9 @@ func checkConv(t ev.T, test string, c ConvCase) {
 			if len(k1) != 1 || k1[0] != ki[0] {
 				ev.Fail(t, prop, test, c, "%s(%q): input of kind %v came back as %v", c.Converter, in, ki, k1)
 			}
+		}
+		if mustClassify[c.Converter][c.Value] && out1 != nil && len(k1) == 0 {
+			ev.Fail(t, prop, test, c, "%s names the condition %s but hands it back without any kind: %v", c.Converter, c.Value, out1)
 		}
 		// idempotent on kinds
 		if out1 != nil {
